@@ -119,6 +119,16 @@ Theorem C19_polyline_on_chosen_edge : forall V E n chosen ts pts, Forall (fun t 
 Proof. exact sample_polyline_spec. Qed.
 Print Assumptions C19_polyline_on_chosen_edge.
 
+(* deterministic core of "shares per edge follow length": only a polyline with at most one edge bypasses
+   choice(NE, size=n, p = lengths/sum) (poly_use_choice is the test generated from sample_polyline); sample_surface
+   has no bypass at all: its model takes the face of every sample from choice (C19_surface_in_chosen_face) *)
+Theorem C19_polyline_edge_drawn_by_choice : forall NE n chosen, (0 <= NE)%Z ->
+  ((2 <= NE)%Z -> poly_edges_used NE n chosen = chosen) /\
+  ((NE <= 1)%Z -> poly_edges_used NE n chosen = repeat poly_default_edge (Z.to_nat n)) /\
+  (NE = 1%Z -> (0 <= poly_default_edge < NE)%Z).
+Proof. exact poly_edges_drawn_by_choice. Qed.
+Print Assumptions C19_polyline_edge_drawn_by_choice.
+
 (* barycentric weights of a surface sample: (sqrt u1 (1-u2), 1 - sqrt u1, sqrt u1 u2), all >= 0, sum 1 *)
 Theorem C19_surface_weights : forall (A B C : rv3) u1 u2, 0 <= u1 < 1 -> 0 <= u2 < 1 ->
   (let '(wa, wb, wc) := bary_w u1 u2 in 0 <= wa /\ 0 <= wb /\ 0 <= wc /\ wa + wb + wc = 1) /\
